@@ -1,5 +1,5 @@
 (* Props/C19.v — cancelling a pending async read loses nothing. *)
-Require Import Base.Bytes Net.Frame Net.Framed Net.FramedProofs Net.Async Net.AsyncProofs Net.Concrete.
+Require Import Base.Bytes Net.Frame Net.Framed Net.FramedProofs Net.Async Net.AsyncProofs Net.AsyncRefines Net.Concrete.
 Local Open Scope N_scope.
 
 (* For every packet layer, mode, transport script (data in any segmentation, transient errors,
@@ -50,6 +50,17 @@ Theorem c19_outgoing_whole_replies :
     trace_ok packet is_keepalive pong
       (asession packet parse ver_of is_keepalive version m verify pong fuel c s rs ws cancels acc).
 Proof. exact outgoing_whole_replies. Qed.
+
+(* the uninterrupted async session on an always-ready transport is literally the connection model of
+   C05 / C07 / C09 (Net/Framed.v): so, with c19_cancel_safe, the per-frame expectations proved there hold
+   for every cancelled async session as well *)
+Theorem c19_uninterrupted_is_the_connection :
+  forall (packet : Type) (parse : bytes -> res packet) (ver_of : packet -> option N)
+         (is_keepalive : packet -> bool) (version : N) (m : mode) (verify : bool) (pong : bytes),
+  pong <> [] -> forall fuel tr buf,
+    asession packet parse ver_of is_keepalive version m verify pong fuel Top (mkF buf [] None) (map AEv (tr ++ [Eof])) [] [] []
+    = session packet parse ver_of is_keepalive version m verify pong fuel buf (tr ++ [Eof]).
+Proof. exact async_session_is_the_connection. Qed.
 
 (* the design before the repair (1dad7af): the partially written reply and its packet are held by the
    future only.  After one byte of the reply has been accepted the connection's state no longer
